@@ -48,9 +48,9 @@ GAM = [("std_gamma", (0, 1, 2)), ("std_gamma", (2, 0, 1)), ("std_gamma", (1, 2, 
 GEO = [("geometric", 0), ("geometric", 1), ("negative_binomial", 0), ("pascal", 1), ("geometric", 2)]
 ALLF = {"raw": 1, "flip": 1, "flip32": 1, "u01": 1, "uniform": 3, "triangular": 3, "std_normal": 1, "normal": 3, "lognormal": 3,
         "logistic": 3, "cauchy": 3, "std_exponential": 1, "exponential": 3, "erlang": 3, "hypoexponential": 3,
-        "hyperexponential": 1, "std_gamma": 3, "gamma": 3, "std_beta": 3, "beta": 3, "PERT_mod": 3, "PERT": 3, "weibull": 3,
-        "pareto": 3, "chisquared": 3, "F_dist": 3, "std_t_dist": 3, "t_dist": 3, "rayleigh": 3, "bernoulli": 3,
-        "geometric": 3, "binomial": 3, "negative_binomial": 3, "pascal": 3, "poisson": 3, "dice": 3, "loaded_dice": 3,
+        "hyperexponential": 1, "std_gamma": 6, "gamma": 5, "std_beta": 5, "beta": 3, "PERT_mod": 3, "PERT": 3, "weibull": 3,
+        "pareto": 3, "chisquared": 4, "F_dist": 5, "std_t_dist": 3, "t_dist": 3, "rayleigh": 3, "bernoulli": 3,
+        "geometric": 4, "binomial": 3, "negative_binomial": 4, "pascal": 4, "poisson": 3, "dice": 3, "loaded_dice": 3,
         "alias_sample": 3}
 CACHED = ["flip", "flip32", "flip", "std_gamma", "gamma", "std_beta", "chisquared", "geometric", "PERT", "F_dist", "negative_binomial"]
 
@@ -155,6 +155,8 @@ def random_history(r, pool):
             if f == "raw":
                 since = -1
             cs.append((f, r.randrange(ALLF[f]))); since += 1
+            if r.random() < 0.25:                      # the very same call again (parameter caches see a hit)
+                cs.append(cs[-1]); since += 1
             if f == "flip" and r.random() < 0.7:       # leave the bit cache at an odd position
                 k = r.randrange(1, 40)
                 cs += [("flip", 0)] * k
